@@ -29,6 +29,7 @@ type C07Params struct {
 }
 
 var defNamePool = []string{"alpha", "beta", "gam-ma", "d_4", "e5", "al", "alphabet", "x"}
+var defNumPool = []string{"2", "3", "1,3"}
 var defValuePool = []string{`[a-c]+`, `\d{2}`, `x{1,3}`, `(?:p|q)`, `\s*`, `z`, `[^\s]`, `\.`, `k\-m`, `"`, `[0-9]{2,}w`, `(?:ab|cd)+`, `\x5c`}
 
 func genC07(t *rapid.T, tier string) (*World, any) {
@@ -93,8 +94,23 @@ func genC07(t *rapid.T, tier string) (*World, any) {
 		where[place] = true
 		return "{{" + pick(t, refPool, label+"-n") + "}}"
 	}
+	// a definition whose value is a number, used as a quantifier bound: x{{{num}}} is x{3}
+	numName := ""
+	if chance(t, 30, "numdef") && !used["num"] {
+		numName = "num"
+		v := pick(t, defNumPool, "numval")
+		names = append(names, numName)
+		vals[numName] = v
+		full[numName] = v
+		p.Defs = append(p.Defs, [2]string{numName, v})
+		refPool = append(refPool, numName)
+	}
 	entry := func(label, place string) string {
 		var sb strings.Builder
+		if numName != "" && chance(t, 30, label+"-bound") {
+			where["quantifier-bound"] = true
+			return pick(t, []string{"[x-z]", "k", "(?:mn)"}, label+"-bb") + "{{{" + numName + "}}}" + pick(t, []string{"", "w"}, label+"-bt")
+		}
 		n := drawInt(t, 1, 3, label+"-n")
 		for i := 0; i < n; i++ {
 			sb.WriteString(ref(label+"-r", place))
